@@ -191,6 +191,26 @@ int vh_case(uint64_t id, int tier)
         }else{
                 struct msa* m = NULL;
                 char* txt = kx_fasta_text(&c.in, 0);
+                if((c.shape >= 0 || id % 7 == 3) && c.in.n >= 2){
+                        /* stray punctuation that a reader ignores (C04): a '*' closing the last record, a '-' inside the one before
+                           it; the residues, and with them the expected rows, are unchanged */
+                        size_t cap = strlen(txt) + 8, o = 0;
+                        char* t2 = malloc(cap);
+                        int r;
+                        for(r = 0; r < c.in.n; r++){
+                                o += (size_t)sprintf(t2 + o, ">%s\n", c.in.name[r]);
+                                if(r == c.in.n - 2 && c.in.len[r] > 1){
+                                        o += (size_t)sprintf(t2 + o, "%c-%s\n", c.in.seq[r][0], c.in.seq[r] + 1);
+                                }else if(r == c.in.n - 1 && c.in.len[r] > 0){
+                                        o += (size_t)sprintf(t2 + o, "%s*\n", c.in.seq[r]);
+                                }else{
+                                        o += (size_t)sprintf(t2 + o, "%s\n", c.in.seq[r]);
+                                }
+                        }
+                        free(txt);
+                        txt = t2;
+                        vh_count("inputs_with_stray_punctuation");
+                }
                 const char* inpath = vh_tmp("in.fa");
                 const char* outpath = vh_tmp("out.aln");
                 size_t tl = strlen(txt);
